@@ -1,7 +1,7 @@
 (* Extraction of the parser model (C02, C03, C17 and the reparse leg of C01 / C14): Model/Builder.v (ExtrOcamlBasic only). *)
 From Coq Require Extraction ExtrOcamlBasic.
-From XotV Require Import Model.Base Model.Interning Model.InternOps Model.Fullname Model.Entity Model.Builder.
+From XotV Require Import Model.Base Model.Interning Model.InternOps Model.Fullname Model.Entity Model.Builder Model.Encoding.
 Extraction Language OCaml.
 Separate Extraction InternOps.x_new InternOps.x_add_namespace InternOps.x_add_prefix InternOps.x_add_name_ns
   Interning.name_ns_str Interning.prefix_str Interning.namespace_str
-  Builder.parse_document_at Builder.parse_document Builder.parse_fragment Builder.stream_shape Builder.span_get Builder.xml_id_lookup Builder.perror_span.
+  Encoding.chosen_label Builder.parse_document_at Builder.parse_document Builder.parse_fragment Builder.stream_shape Builder.span_get Builder.xml_id_lookup Builder.perror_span.
